@@ -30,6 +30,11 @@ _EXTRA = {
     'LL':  (('Water', '1-Butanol', 'Octanol', 'EthylAcetate', 'Hexane', 'Ethanol'), {}),
     # package ORDER is a configuration axis: phase-locked members first and in the middle, volatile ones after them
     'OVLE': (('N2', 'Water', 'Glucose', 'Ethanol', 'Propanol'), {'N2': 'g', 'Glucose': 's'}),
+    # reactive flash (liquid_conversion= / gas_conversion= arguments of vle): esterification, as in tests/test_reaction.py
+    'RX':   (('EthylLactate', 'LacticAcid', 'Water', 'Ethanol'), {}),
+    # one member above its critical temperature over most of the T grid (Propane Tc = 369.9 K, CO2 Tc = 304.1 K)
+    'SC':   (('Propane', 'Hexane', 'Octane'), {}),
+    'SCW':  (('CO2', 'Water', 'Ethanol'), {}),
     'ORD':  (('N2', 'Methanol', 'Glucose', 'Water', 'Propanol'), {'N2': 'g', 'Glucose': 's'}),
 }
 
@@ -151,6 +156,7 @@ def magnitudes(n, mag):
     return v
 
 DISTS = ('l', 'g', 'half', 'alt', 'Ls', 'Sl', 'Sg')
+SOLUTES = ('Tetradecanol', 'Glucose')
 
 def build_stream(config, T0=298.15, P0=101325.):
     """Fresh real stream for (pkg, comp, mag, dist).  Distributions:
@@ -209,6 +215,12 @@ def build_stream(config, T0=298.15, P0=101325.):
         s = tmo.MultiStream(None, phases=('l', 's'), T=T0, P=P0, thermo=th)
         s.imol['s'] = 0.5 * full; s.imol['l'] = full - 0.5 * full
         return s
+    if dist in ('sS', 'sH'):
+        # slurry: the solute candidates entirely ('sS') / half ('sH') in the solid phase, everything else liquid
+        s = tmo.MultiStream(None, phases=('l', 's'), T=T0, P=P0, thermo=th)
+        sol = vec(lambda k, ID: ID in SOLUTES, 1.0 if dist == 'sS' else 0.5)
+        s.imol['s'] = sol; s.imol['l'] = full - sol
+        return s
     if dist == 'gl-L':
         s = tmo.MultiStream(None, phases=('L', 'g', 'l'), T=T0, P=P0, thermo=th)
         s.imol['L'] = 0.25 * full; s.imol['g'] = 0.25 * full; s.imol['l'] = full - 0.5 * full
@@ -247,7 +259,7 @@ def _v(x):
     if hasattr(x, 'dct') or hasattr(x, 'rows'): return fx.sparse_digest(x)
     return type(x).__name__
 
-VLE_FIELDS = ('method', '_T', '_P', '_H_hat', '_S_hat', '_V', '_K', '_v', '_index', '_nonzero', '_N', '_z', '_z_last',
+VLE_FIELDS = ('method', '_dmol_vle', '_dF_mol', '_T', '_P', '_H_hat', '_S_hat', '_V', '_K', '_v', '_index', '_nonzero', '_N', '_z', '_z_last',
               '_z_light', '_z_heavy', '_F_mol', '_F_mol_vle', '_F_mass', '_chemical', '_mol_vle')
 LLE_FIELDS = ('method', '_z_mol', '_T', '_lle_chemicals', '_K', '_phi')
 SLE_FIELDS = ('_x', '_index', '_chemical', '_nonzero', '_mol_solute', '_solute_index', '_solute_gamma_index', 'activity_coefficient')
@@ -490,6 +502,19 @@ def resolve_kwargs(st, action):
             if len(vol) > 1: Pb = ref.bubble_P(z, T)[0]; Pd = ref.dew_P(z, T)[0]
             else: Pb = Pd = float(ref.Psats(T)[0])
         return dict(T=T, P=float(Pd + float(v2) * (Pb - Pd))), dict(P_bubble=Pb, P_dew=Pd, frac=float(v2))
+    if pair == 'Tq':
+        # (T, P) with P = my bubble pressure (pure chemical: Psat) x (1 + v2)
+        vol, light, heavy, tot = classify(st)
+        z = np.array([tot[i] for i in vol]); z = z / z.sum()
+        ref = ref_for(st.th, vol)
+        T = float(v1)
+        with np.errstate(all='ignore'):
+            Pb = ref.bubble_P(z, T)[0] if len(vol) > 1 else float(ref.Psats(T)[0])
+        return dict(T=T, P=float(Pb * (1. + float(v2)))), dict(P_bubble=Pb, rel=float(v2))
+    if pair in ('TPl', 'TPg'):
+        # reactive flash: vle(T, P, liquid_conversion= / gas_conversion=Reaction)
+        rxn = fx.tmo().Reaction('LacticAcid + Ethanol -> Water + EthylLactate', reactant='LacticAcid', X=0.2, chemicals=st.th.chemicals)
+        return {'T': float(v1), 'P': float(v2), ('liquid_conversion' if pair == 'TPl' else 'gas_conversion'): rxn}, dict(reactive=True)
     for name, v in zip(pair, (v1, v2)):
         if name in 'TPV': kw[name] = float(v)
     for name, v in zip(pair, (v1, v2)):
@@ -526,6 +551,14 @@ def run_call(st, action):
             pair = action[1]
             if pair == 'T': s.sle(action[2], T=float(action[3]))
             elif pair == 'Tx': s.sle(action[2], T=float(action[3]), solubility=float(action[4]))
+            elif pair == 'Txr':
+                # solubility given RELATIVE to the mole fraction at complete dissolution of ALL the solute present (liquid + solid)
+                d_ = dense_by_phase(s); i_ = s.chemicals.IDs.index(action[2])
+                liq = d_.get('l', np.zeros(s.chemicals.size)); tot_sol = sum(a_[i_] for a_ in d_.values() if a_ is not None)
+                solvent = float(liq.sum() - liq[i_])
+                x_full = tot_sol / (solvent + tot_sol) if (solvent + tot_sol) > 0 else 1.
+                kw = dict(solubility=min(float(action[4]) * x_full, 1. - 1e-9))
+                s.sle(action[2], T=float(action[3]), solubility=kw['solubility'])
             else: raise ValueError(action)
         elif kind == 'vlle':
             s.vlle(T=float(action[2]), P=float(action[3]))
@@ -632,6 +665,9 @@ class FlashSystem(System):
         st.config = config
         st.th = package(config[0])
         st.s = build_stream(config)
+        if len(config) > 4 and isinstance(config[4], tuple) and config[4] and config[4][0] == 'opts':
+            for k, v in config[4][1]:
+                if k == 'vle_method': st.s.vle.method = v      # documented solver option: 'fixed-point' (default) or 'shgo'
         st.tot0 = totals(st.s)
         st.last = None; st.n_calls = 0; st.extra = {}
         return st
@@ -648,7 +684,7 @@ class FlashSystem(System):
         obs = run_call(st, action)
         self._oracle(self, st, action, dict(flows=before, T=T0, P=P0), obs)
         return {k: v for k, v in obs.items() if k not in ('kw', 'info')} | \
-               dict(kw={k: (v.tolist() if hasattr(v, 'tolist') else v) for k, v in obs['kw'].items()})
+               dict(kw={k: (v.tolist() if hasattr(v, 'tolist') else (v if isinstance(v, (int, float, str)) else repr(v))) for k, v in obs['kw'].items()})
 
     def nontrivial(self, st, a, obs):
         if self._nontrivial: return self._nontrivial(self, st, a, obs)
